@@ -47,16 +47,39 @@ fn desc_sig(d: &Desc) -> String {
     format!("{}|{}|{}|{:?}", d.phrase, d.description, d.value, d.unit)
 }
 
-/// Ask a phrase alone (with describe) → (Q for the reference, signature of the constant).
-fn ask_alone(db: &Db, phrase: &str) -> Option<(Q, String)> {
-    let run = run_full(db, phrase, true).ok()?;
+/// Outcome of asking a phrase alone, with descriptions on.
+enum Alone {
+    /// one value and exactly one description: (Q for the reference, signature of the constant)
+    Found(Q, String),
+    /// the lookup itself fails (nothing found, or an error): the phrase cannot be used in a case
+    NotFound,
+    /// a value came back but not with exactly one description of that phrase: a violation in itself
+    Anomaly(String),
+}
+
+fn ask_alone_full(db: &Db, phrase: &str) -> Alone {
+    let run = match run_full(db, phrase, true) {
+        Ok(r) => r,
+        Err(p) => return Alone::Anomaly(format!("panic: {}", p)),
+    };
     match (run.results.as_slice(), run.descs.as_slice()) {
         ([R::Ok(v)], [d]) => {
-            let dim = mirror_dim(&v.unit)?;
-            let scale = mirror_scale(&v.unit, &observed().table)?;
+            if d.phrase != phrase {
+                return Alone::Anomaly(format!("asked {:?}, described {:?}", phrase, d.phrase));
+            }
+            let (Some(dim), Some(scale)) = (mirror_dim(&v.unit), mirror_scale(&v.unit, &observed().table)) else { return Alone::NotFound };
             let unit = if v.unit.is_empty() { UState::Plain } else { UState::Known(scale.clone()) };
-            Some((Q { si: &v.value * &scale, dim, unit }, format!("{}|{}|{:?}", d.description, d.value, d.unit)))
+            Alone::Found(Q { si: &v.value * &scale, dim, unit }, format!("{}|{}|{:?}", d.description, d.value, d.unit))
         }
+        ([R::Ok(_)], ds) => Alone::Anomaly(format!("one value but {} descriptions: {:?}", ds.len(), ds.iter().map(|d| d.phrase.clone()).collect::<Vec<_>>())),
+        _ => Alone::NotFound,
+    }
+}
+
+/// Ask a phrase alone (with describe) → (Q for the reference, signature of the constant).
+fn ask_alone(db: &Db, phrase: &str) -> Option<(Q, String)> {
+    match ask_alone_full(db, phrase) {
+        Alone::Found(q, s) => Some((q, s)),
         _ => None,
     }
 }
@@ -72,17 +95,31 @@ fn phrases_of(e: &Expr) -> Vec<String> {
 }
 
 fn make_case(exprs: &[Expr]) -> Option<DCase> {
+    make_case_full(exprs).ok().flatten()
+}
+
+/// Err((signature, detail)) when a phrase asked alone already misbehaves (so the case is a failure, not a discard).
+fn make_case_full(exprs: &[Expr]) -> Result<Option<DCase>, (String, Value)> {
     let db = shared_db();
     let mut alone: BTreeMap<String, Q> = BTreeMap::new();
     for e in exprs {
         for p in phrases_of(e) {
             if !alone.contains_key(&p) {
-                let (q, _) = ask_alone(db, &p)?;
-                alone.insert(p, q);
+                match ask_alone_full(db, &p) {
+                    Alone::Found(q, _) => {
+                        alone.insert(p, q);
+                    }
+                    Alone::NotFound => return Ok(None),
+                    Alone::Anomaly(why) => return Err(("phrase-alone-is-not-described-exactly-once".to_string(), json!({"query": p, "why": why}))),
+                }
             }
         }
     }
-    let env = FactEnv { alone: &alone };
+    Ok(make_case_with(exprs, &alone))
+}
+
+fn make_case_with(exprs: &[Expr], alone: &BTreeMap<String, Q>) -> Option<DCase> {
+    let env = FactEnv { alone };
     let mut parts = Vec::new();
     let mut texts = Vec::new();
     let mut nfacts = 0;
@@ -387,9 +424,10 @@ pub fn run_check(ctx: &Ctx) {
         "expressions",
         exprs,
         n,
-        |es| match make_case(es) {
-            Some(c) => check_on(shared_db(), &c),
-            None => CaseReport::discard("", "reference-unspecified"),
+        |es| match make_case_full(es) {
+            Ok(Some(c)) => check_on(shared_db(), &c),
+            Ok(None) => CaseReport::discard("", "reference-unspecified"),
+            Err((sig, detail)) => CaseReport::fail(detail["query"].as_str().unwrap_or("").to_string(), sig, detail),
         },
         |es| make_case(es).map(|c| to_json(&c)).unwrap_or(Value::Null),
     );
